@@ -34,6 +34,12 @@ pub struct FileWatch {
     pub unlinks_checked: u64,
     /// Files each live reader snapshot (held cursor, by slot) depends on.
     pinned: BTreeMap<usize, BTreeSet<String>>,
+    /// Number of the fragment the live store manifest will become (last rollover + 1).
+    cur_frag: u64,
+    /// For each digest, the fragments in which a transaction (not a roll-up) added it.
+    added_in: BTreeMap<String, Vec<u64>>,
+    /// The fragment the verifier recorded as the one it is processing / has processed.
+    verifier_at: Option<u64>,
 }
 
 fn log_digest(bytes: &[u8]) -> Result<Option<String>, String> {
@@ -126,6 +132,7 @@ impl FileWatch {
         match (which, action) {
             ("store", '+') => {
                 self.listed.insert(payload.to_string());
+                self.added_in.entry(payload.to_string()).or_default().push(self.cur_frag);
             }
             ("store", '-') => {
                 self.listed.remove(payload);
@@ -136,6 +143,9 @@ impl FileWatch {
             }
             ("verify", '+') => {
                 self.intent.insert(payload.to_string());
+            }
+            ("verify", 'M') => {
+                self.verifier_at = payload.strip_prefix("MANIFEST.").and_then(|n| n.parse().ok());
             }
             ("verify", '-') => {
                 self.intent.remove(payload);
@@ -193,6 +203,11 @@ fn scan_trace(ex: &mut Exec) -> Option<(String, String)> {
                 }
                 for l in lines {
                     w.manifest_line(which, &l);
+                }
+            }
+            Ev::Link { old, new } if old == "mani/MANIFEST" => {
+                if let Some(n) = new.strip_prefix("mani/MANIFEST.").and_then(|n| n.parse::<u64>().ok()) {
+                    w.cur_frag = n + 1;
                 }
             }
             Ev::Rename { old, new } => {
@@ -262,6 +277,17 @@ fn scan_trace(ex: &mut Exec) -> Option<(String, String)> {
                         ));
                     }
                     if let Some(digest) = name.strip_suffix(".sst") {
+                        // "whose fragment it has verified": a transaction after the fragment the
+                        // verifier is at created a table with this digest again, so the file in
+                        // the trash is (or will be) that table's, whose removal is not verified
+                        if let (Some(at), Some(adds)) = (w.verifier_at, w.added_in.get(digest)) {
+                            if w.cur_frag > 0 && adds.iter().any(|f| *f > at) {
+                                return Some((
+                                    "verifier-unlinked-table-a-later-unverified-transaction-created-again".into(),
+                                    format!("unlink {path} while processing fragment {at}: a transaction in fragment {:?} adds {digest} again", adds.iter().filter(|f| **f > at).collect::<Vec<_>>()),
+                                ));
+                            }
+                        }
                         if !w.ever_removed.contains(digest) {
                             return Some((
                                 "verifier-unlinked-file-no-transaction-removed".into(),
@@ -350,6 +376,12 @@ pub fn check_verifier_unlinks(ex: &mut Exec, _trace_from: usize) {
 
 /// (3) contents unchanged after a verifier pass / reopen.
 pub fn check_contents(ex: &mut Exec, after: &str) {
+    if ex.h.profile == "tree-verify" {
+        // this profile re-ingests tables with old timestamps (Op::Reingest); its model of the
+        // contents is by operation order, not by timestamp, so reads are not judged here
+        ex.probes.hit("c08_contents_check_not_applicable_to_reingest_profile");
+        return;
+    }
     if ex.level_overlap.is_some() {
         // Reads are already unsound for a reason that has nothing to do with file removal
         // (recovery misordered two files, known finding F-C01-1); C01 reports that.
